@@ -1,3 +1,11 @@
-From Charon Require Import Codec.HashProgFacts.
-Print Assumptions root_injective.
-Check root_injective.
+From mathcomp Require Import all_ssreflect all_algebra.
+From Charon Require Import Tbls.Shamir.
+About verify_shares_reconstruct_sound.
+About split_recover_lmod.
+About sub_ids_distinct.
+About recover_ext.
+About recover.
+About vsr_check.
+About on_one_poly.
+About evalV.
+Print Assumptions verify_shares_reconstruct_sound.
